@@ -6,6 +6,9 @@
  * and injects one fault at unit number FAULTFS_AT:
  *   FAULTFS_MODE=kill    perform the part of the write below the budget, then _exit(137)
  *                        (process death: what was written stays written, no destructor runs)
+ *   FAULTFS_MODE=eio-once
+ *                        transient error: short write up to the budget, the next write call to a
+ *                        watched file fails with EIO, every later call works again
  *   FAULTFS_MODE=killafter
  *                        as kill, but a metadata operation at the fault point is performed first
  *                        and the process dies right after it (the gap between a visible metadata
@@ -34,7 +37,7 @@
 static pthread_mutex_t mu = PTHREAD_MUTEX_INITIALIZER;
 static long long units = 0;
 static long long fault_at = -1;
-static int mode = 0; /* 0 kill, 1 eio, 2 enospc, 3 killafter */
+static int mode = 0; /* 0 kill, 1 eio, 2 enospc, 3 killafter, 4 eio-once */
 #define KILLMODE (mode == 0 || mode == 3)
 static int failing = 0;
 static char dir[PATH_MAX] = "";
@@ -84,6 +87,7 @@ static void init(void) {
     if (m && !strcmp(m, "eio")) mode = 1;
     if (m && !strcmp(m, "enospc")) mode = 2;
     if (m && !strcmp(m, "killafter")) mode = 3;
+    if (m && !strcmp(m, "eio-once")) mode = 4;
     const char *l = getenv("FAULTFS_LOG");
     if (l) strncpy(logpath, l, sizeof logpath - 1);
     atexit(dump_log);
@@ -137,13 +141,18 @@ static void account_ino(int fd, long long n) {
     }
 }
 
-static int err_no(void) { return mode == 1 ? EIO : ENOSPC; }
+static int err_no(void) { return mode == 2 ? ENOSPC : EIO; }
 
 /* Decide how many of `count` bytes may be written. Returns -1 when the call must fail (errno set),
  * otherwise the allowed count; *die is set when the process must exit after the partial write. */
 static long long budget(int fd, long long count, int *die, const char *kind) {
     *die = 0;
     if (failing) {
+        if (mode == 4) {
+            /* transient error: this one call fails, everything after it works again */
+            failing = 0;
+            fault_at = -1;
+        }
         errno = err_no();
         return -1;
     }
@@ -163,6 +172,10 @@ static long long budget(int fd, long long count, int *die, const char *kind) {
     }
     failing = 1;
     if (allowed == 0) {
+        if (mode == 4) {
+            failing = 0;
+            fault_at = -1;
+        }
         errno = err_no();
         return -1;
     }
